@@ -223,7 +223,15 @@ func (ke *KindEval) eval(fn *ssa.Function, args []AV, depth int) *EvalResult {
 	run = func(b *ssa.BasicBlock, prev *ssa.BasicBlock, p *evalPath) bool {
 		p.visit[b]++
 		if p.visit[b] > 1 {
-			return false // loop: bail
+			// back edge: the loop body was explored once with every loop-carried
+			// value unknown (see below), so further iterations add nothing
+			return true
+		}
+		header := false
+		for _, pr := range b.Preds {
+			if b.Dominates(pr) {
+				header = true
+			}
 		}
 		for _, in := range b.Instrs {
 			steps++
@@ -232,6 +240,11 @@ func (ke *KindEval) eval(fn *ssa.Function, args []AV, depth int) *EvalResult {
 			}
 			switch x := in.(type) {
 			case *ssa.Phi:
+				if header {
+					// loop-carried: havoc
+					p.env[x] = avUnknownFor(x.Type())
+					continue
+				}
 				for i, pr := range b.Preds {
 					if pr == prev {
 						p.env[x] = ke.val(x.Edges[i], p)
